@@ -296,6 +296,10 @@ func indexIngest(repo Repo, index *types.Index, conf config.Config, locked bool)
 		}
 		if childIndex.Manifests != nil {
 			for _, desc := range childIndex.Manifests {
+				// a descriptor that is not listed as a manifest references a plain blob
+				if !types.MediaTypeImage(desc.MediaType) && !types.MediaTypeIndex(desc.MediaType) {
+					continue
+				}
 				if !seen[desc.Digest] {
 					index.AddChildren([]types.Descriptor{desc})
 					if types.MediaTypeIndex(desc.MediaType) {
